@@ -520,6 +520,10 @@ func init() {
 			nb := txMut(w, func(t []*transaction.Transaction) []*transaction.Transaction {
 				var cp []*transaction.Transaction
 				for _, a := range add {
+					if a == w.dupAttr { // its encoding does not decode (that is the point): no copy through the codec
+						cp = append(cp, a)
+						continue
+					}
 					cp = append(cp, cloneTx(a))
 				}
 				return insertAt(t, cr.J, cp...)
@@ -530,6 +534,18 @@ func init() {
 	withTx("tx-expired", "contains a correctly signed transaction whose ValidUntilBlock is the current height", false, "",
 		func(w *world, cr Corruption) ([]*transaction.Transaction, string) {
 			return []*transaction.Transaction{w.expired}, ""
+		})
+	withTx("tx-nvb-future", "contains a correctly signed transaction whose NotValidBefore height is above the block's index", false, "",
+		func(w *world, cr Corruption) ([]*transaction.Transaction, string) {
+			return []*transaction.Transaction{w.nvbFuture}, ""
+		})
+	withTx("tx-high-nocommittee", "contains a HighPriority transaction that the committee did not sign", false, "",
+		func(w *world, cr Corruption) ([]*transaction.Transaction, string) {
+			return []*transaction.Transaction{w.highNoCommittee}, ""
+		})
+	withTx("tx-dup-attribute", "contains a transaction carrying the same single-use attribute twice", false, "",
+		func(w *world, cr Corruption) ([]*transaction.Transaction, string) {
+			return []*transaction.Transaction{w.dupAttr}, ""
 		})
 	withTx("tx-vub-far", "contains a transaction valid until beyond the allowed increment", false, "",
 		func(w *world, cr Corruption) ([]*transaction.Transaction, string) {
